@@ -693,7 +693,13 @@ func init() {
 	register("C07", "model_checking", checkC07)
 	register("C08", "model_checking", checkC08)
 	replayers["C05"] = histReplayFn(c05Clauses)
-	replayers["C06"] = histReplayFn(c06Clauses)
+	c06Hist := histReplayFn(c06Clauses)
+	replayers["C06"] = func(raw json.RawMessage) (bool, string) {
+		if bad, detail, isPair := c06PairReplayFn(raw); isPair {
+			return bad, detail
+		}
+		return c06Hist(raw)
+	}
 	replayers["C07"] = histReplayFn(c07Clauses)
 	replayers["C08"] = histReplayFn(c08Clauses)
 }
@@ -766,6 +772,7 @@ func checkC06(r *core.Run) {
 	histProcessFresh(r, c06ContextScenario(), c06ContextAlphabet(1))
 	histProcessFresh(r, ctx2, c06ContextAlphabet(2))
 	histProcessFresh(r, c06EndsAttrScenario(), c06EndsAttrAlphabet())
+	c06CallSitePairs(r)
 	r.Sample(map[string]string{"scenario": "shared-helper", "history": renderOps(c06Alphabet()[2:5])})
 	r.Assume("expected value of every call = the same call on a freshly built set (no hand-written expectations)")
 }
